@@ -468,7 +468,7 @@ PROPS = {
         ],
     },
     'C13': {
-        'v_units': ['waitsub', 'pipelinerun'],
+        'v_units': ['waitsub', 'pipelinerun', 'startwait'],
         'k_units': ['waitstatus'],
         'level': 'other',
         'explanation': (
@@ -490,13 +490,15 @@ PROPS = {
             'interleaving, that the table is updated from the true wait status of the right child (wait_for_subshell, '
             'update_all_subshell_statuses, the SIGCHLD handling), zombies, $!, the pipefail rule (four lines inside the async pipeline '
             'executor), `wait` without operands. The family of technique is silent on interleavings; this check sees none of them.'
-            ' Unit pipelinerun (Verus, pipeline.rs execute_commands_in_pipeline, execute_job_controlled_pipeline, execute_multi_command_pipeline, shift_or_fail, pid_or_fail, connect_pipe_and_execute_command) against a monitor of the opaque pipe-set / start / wait calls: an empty pipeline has status 0; a one-command pipeline is exactly that command run in this shell, its result handed on, no second errexit; for two or more commands no command runs in this shell: without job control one child is started per command, in order, each right after the pipe set was shifted for it and with the pipe set as just shifted (a next pipe iff it is not the last command), the parent shifts once more (closing its last pipe end) BEFORE it waits, every child started is awaited exactly once, in order (the process IDs are pairwise distinct and each is still unreaped when awaited, so the `expect` cannot fail), none is left unreaped, and `$?` is the status of the last command or, under pipefail, of the rightmost one that failed (0 if none); with job control exactly one child is started for exactly these commands, its awaited result is interpreted once and `$?` is the status it stands for; in both cases errexit is consulted exactly once, at the very end, with that status, and its answer is the result; a failing pipe / start gives an interrupt with status 126 (NOEXEC). In a child, connect_pipe_and_execute_command connects the pipes first and runs the command once, only if that worked.'),
+            ' Unit pipelinerun (Verus, pipeline.rs execute_commands_in_pipeline, execute_job_controlled_pipeline, execute_multi_command_pipeline, shift_or_fail, pid_or_fail, connect_pipe_and_execute_command) against a monitor of the opaque pipe-set / start / wait calls: an empty pipeline has status 0; a one-command pipeline is exactly that command run in this shell, its result handed on, no second errexit; for two or more commands no command runs in this shell: without job control one child is started per command, in order, each right after the pipe set was shifted for it and with the pipe set as just shifted (a next pipe iff it is not the last command), the parent shifts once more (closing its last pipe end) BEFORE it waits, every child started is awaited exactly once, in order (the process IDs are pairwise distinct and each is still unreaped when awaited, so the `expect` cannot fail), none is left unreaped, and `$?` is the status of the last command or, under pipefail, of the rightmost one that failed (0 if none); with job control exactly one child is started for exactly these commands, its awaited result is interpreted once and `$?` is the status it stands for; in both cases errexit is consulted exactly once, at the very end, with that status, and its answer is the result; a failing pipe / start gives an interrupt with status 126 (NOEXEC). In a child, connect_pipe_and_execute_command connects the pipes first and runs the command once, only if that worked.'
+            ' Unit startwait (Verus, yash-env/src/subshell/config.rs Config::start_and_wait - the way every synchronously awaited child is awaited): exactly one child is started; every halt awaited is one of exactly that child; the answer is that child with the LAST halt reported, a mere stop only when the child is job-controlled, and every earlier report was a stop of a child without job control, which goes on being awaited (a child without job control that is stopped and continued later is awaited until it really ends - its true exit status is what `$?` gets).'),
         'trusted_base': ['Verus 0.2026.09.13 + Z3', 'Kani 0.68.0 + CBMC 6.11', '/verif/tools/vextract.py, /verif/tools/kunit.py'],
         'assumptions': [
             'unit waitsub: enabling the SIGCHLD disposition, System::wait, JobList::update_status and wait_for_signal are opaque calls that update a ghost monitor in the reduced Env (rewrite rule tokens-to-helper for the three field-method calls); From<signal::Number> for ExitStatus (number + 0x180) is uninterpreted; the spec functions of the From / TryFrom spec traits of vstd are declared by hand and the real bodies are proved to obey them; await points dropped; termination not claimed; WHEN children change state is not modelled',
             'std HashMap of the job table is replaced by the linear stand-in of the Kani pipeline (cfg verif_map)',
             'tables of at most one job; the status test is applied twice; signals restricted to 1..64',
             'unit pipelinerun: PipeSet is a ghost view (number of shifts, has-next flag of the last shift; the real shift / move_to_stdin_stdout are verified in unit pipeset); Config::new().start(..) / Config::foreground().start_and_wait(..) with their async closures are opaque calls (what the child-side closures do after connect_pipe_and_execute_command - apply_result, run_exit_trap - is NOT under contract here); start answers a process ID that is not among the unreaped ones and no job control; wait_for_subshell_to_finish answers Ok(target, status) for an unreaped child of ours (unit waitsub has the real function); handle_job_status, apply_errexit, controls_jobs, OptionSet::get(PipeFail), print_error opaque; `commands.iter().cloned()` is an assumed model of the slice iterator; `for pid in pids` takes the first element off on every round; debug_assert_eq!(job_control, None) is an obligation; preconditions: a fresh monitor; await points dropped; what happens to children already started when a later pipe / start fails is not constrained',
+            'unit startwait: Config::start (fork + the child-side closure), Env::wait_for_subshell_to_halt (the real one is in unit waitsub), ProcessResult::is_stopped and tcsetpgrp_with_block are opaque calls driving a ghost monitor; the AsyncFnOnce bound of the task parameter is dropped from the signature (rule sig-tokens); `let result = loop { .. break result; }` is checked as a deferred initialisation plus a plain break (rule loop-break-value: Verus has no break with a value); a second annotation set judges a loop-free body as it stands; await points dropped; termination of the waiting loop not claimed',
         ],
     },
     'C17': {
